@@ -43,6 +43,9 @@ def variants(sc, b):
                     c[1] = mech
         sc2['with_block'] = (mech == 'with')
         out.append(('base' if mech == 'break' else mech, sc2))
+        if sessprop.sampled(sc2, b, 6):
+            out.append((mech + '-wss', sessprop.via_tls(sc2)))
+            out.append((mech + '-proxy', sessprop.via_proxy(sc2)))
     return out
 
 
